@@ -356,6 +356,30 @@ def gen_task_rb(rng, scalar=True, allow_prefix=True):
     return ("rbf", a, c)
 
 
+def gen_dense_taskset(rng, nhp=None):
+    """sporadic task set with total utilisation in [0.85, 1): hp tasks [(arr, C)] and the task under
+    analysis (arr, C) — the busy window spans several jobs of the analysed task while its first
+    job may already be complete before the second arrives (the late offsets matter)"""
+    from fractions import Fraction
+    nhp = nhp if nhp is not None else rng.randint(1, 3)
+    hp = []
+    u = Fraction(0)
+    for _ in range(nhp):
+        T = rng.randint(5, 14)
+        C = rng.randint(1, max(1, min(4, T // 3)))
+        if u + Fraction(C, T) > Fraction(3, 4):
+            continue
+        u += Fraction(C, T)
+        J = wchoice(rng, [(5, 0), (1, rng.randint(1, T // 2))])
+        hp.append((("spo", T, J) if (J or rng.random() < 0.7) else ("per", T), C))
+    C = rng.randint(2, 6)
+    target = Fraction(rng.randint(85, 99), 100)
+    rest = max(target - u, Fraction(1, 20))
+    T = max(C, -(-C * rest.denominator // rest.numerator))     # ceil(C / rest)
+    J = wchoice(rng, [(5, 0), (1, rng.randint(1, max(1, T // 2)))])
+    return hp, (("spo", T, J), C)
+
+
 def gen_limit(rng):
     return wchoice(rng, [(1, rng.randint(0, 3)), (3, rng.randint(3, 40)), (5, rng.randint(40, 400)), (2, rng.randint(400, 3000))])
 
